@@ -28,8 +28,8 @@ pub fn kinds_for(k: Kind, r: &mut Rng) -> ConnKind {
     match k {
         Kind::Tcp => *r.pick(&[ConnKind::TcpOnly, ConnKind::TcpOnly, ConnKind::Http1, ConnKind::Tls]),
         Kind::Tls => *r.pick(&[ConnKind::Tls, ConnKind::Tls, ConnKind::Tls, ConnKind::Http1, ConnKind::Garbage]),
-        Kind::Http => *r.pick(&[ConnKind::Http1, ConnKind::Http1, ConnKind::Http2, ConnKind::Http2, ConnKind::Http2Hostile, ConnKind::Garbage]),
-        Kind::Unified => *r.pick(&[ConnKind::TcpOnly, ConnKind::Tls, ConnKind::Http1, ConnKind::Http2, ConnKind::Http2, ConnKind::Http2Hostile, ConnKind::Garbage]),
+        Kind::Http => *r.pick(&[ConnKind::Http1, ConnKind::Http1, ConnKind::Http2, ConnKind::Http2, ConnKind::Http2Hostile, ConnKind::Garbage, ConnKind::TlsThenHttpResponse]),
+        Kind::Unified => *r.pick(&[ConnKind::TcpOnly, ConnKind::Tls, ConnKind::Http1, ConnKind::Http2, ConnKind::Http2, ConnKind::Http2Hostile, ConnKind::Garbage, ConnKind::TlsThenHttpResponse]),
     }
 }
 
@@ -65,6 +65,18 @@ impl Prop for C07 {
         let eps = conn::endpoints(r, n, v6);
         let o = ConnOpts { v6, framing: *r.pick(&[Framing::Ethernet, Framing::Ethernet, Framing::RawIp]), max_parts: 4, gap_lo: 50_000, gap_hi: 30_000_000, tls_single_segment: kind == Kind::Unified && r.chance(1, 2) };
         let mode = *r.pick(&[MergeMode::Uniform, MergeMode::Uniform, MergeMode::RoundRobin, MergeMode::Bursts, MergeMode::FirstFirst]);
+        // twin connections: the same a:p -> b:q once over IPv4 and once over IPv6 with IPv4-mapped addresses
+        // (::ffff:a -> ::ffff:b): two distinct connections that differ only in address family
+        let mut eps = eps;
+        if !v6 && eps.len() >= 2 && r.chance(1, 6) {
+            let map = |e: &crate::pkt::Endpoint| -> crate::pkt::Endpoint {
+                match e.ip {
+                    std::net::IpAddr::V4(a) => crate::pkt::Endpoint { ip: std::net::IpAddr::V6(a.to_ipv6_mapped()), port: e.port },
+                    _ => *e,
+                }
+            };
+            eps[1] = (map(&eps[0].0), map(&eps[0].1));
+        }
         let mut conns: Vec<Conn> = vec![];
         for (i, (c, s)) in eps.iter().enumerate() {
             let mut ck = kinds_for(kind, r);
